@@ -277,6 +277,7 @@ pub(crate) trait ErasedNode: Debug + NotObserver {
         oc: &NodeRef,
         op: &NodeRef,
     );
+    fn necessary_nodes_of_unnecessary_bind(&self, out: &mut Vec<NodeRef>);
     fn created_in(&self) -> Scope;
     fn run_on_update_handlers(&self, node_update: NodeUpdateDelayed, now: StabilisationNum);
     fn maybe_handle_after_stabilisation(&self, state: &State);
@@ -553,10 +554,16 @@ impl ErasedNode for Node {
             own (observed directly) while the bind was not, and the bind's input may have grown
             taller in the meantime. They must still sit above us, so that we run -- and
             invalidate them -- before they get a chance to. */
-            let rhs_nodes: Vec<NodeRef> = {
+            let mut rhs_nodes: Vec<NodeRef> = {
                 let all = bind.all_nodes_created_on_rhs.borrow();
                 all.iter().filter_map(Weak::upgrade).collect()
             };
+            // (also those inside a bind of ours that is itself no longer necessary)
+            let mut nested = Vec::new();
+            for rnode in &rhs_nodes {
+                rnode.necessary_nodes_of_unnecessary_bind(&mut nested);
+            }
+            rhs_nodes.extend(nested);
             for rnode in rhs_nodes {
                 if rnode.is_necessary() && rnode.height() <= self.height() {
                     let mut ah_heap = state.adjust_heights_heap.borrow_mut();
@@ -962,9 +969,37 @@ impl ErasedNode for Node {
                     tracing::debug!("all_nodes_created_on_rhs: {:?}", rnode);
                     if rnode.is_necessary() {
                         ahh.ensure_height_requirement(oc, op, &self.packed(), &rnode)
+                    } else {
+                        /* A bind created on our right-hand side that is no longer necessary does
+                        not pass the lift on, but nodes it created may still be in use on their
+                        own: they too must stay above us, or they would run before we invalidate
+                        them. */
+                        let mut nested = Vec::new();
+                        rnode.necessary_nodes_of_unnecessary_bind(&mut nested);
+                        for n in nested {
+                            ahh.ensure_height_requirement(oc, op, &self.packed(), &n)
+                        }
                     }
                 }
             })
+        }
+    }
+
+    /// If this is the lhs-change node of a bind that is not necessary: the nodes created by that
+    /// bind (and, recursively, by unnecessary binds among them) that are necessary on their own.
+    fn necessary_nodes_of_unnecessary_bind(&self, out: &mut Vec<NodeRef>) {
+        if self.is_necessary() {
+            return;
+        }
+        if let Some(Kind::BindLhsChange { bind, .. }) = self.kind() {
+            let all = bind.all_nodes_created_on_rhs.borrow();
+            for rnode in all.iter().filter_map(Weak::upgrade) {
+                if rnode.is_necessary() {
+                    out.push(rnode);
+                } else {
+                    rnode.necessary_nodes_of_unnecessary_bind(out);
+                }
+            }
         }
     }
 
